@@ -108,8 +108,8 @@ TABLE = {
 
 # fixed, seed-independent problem set for the enumerations
 PROBLEMS = {
-    "quick": ["rosen2", "linbox3", "noisy2", "reg2"],
-    "thorough": ["rosen2", "linbox3", "noisy2", "reg2", "scaled4", "ball2"],
+    "quick": ["rosen2", "linbox3", "noisy2", "reg2", "grow3"],
+    "thorough": ["rosen2", "linbox3", "noisy2", "reg2", "grow3", "scaled4", "ball2"],
 }
 
 
@@ -125,6 +125,11 @@ def problem_cfg(name):
     if name == "reg2":
         return dict(prob=dict(kind="linear", n=2, m=4, pseed=11, cond=3.0, scale=1.0), x0=[0.7, -0.3], lower=None, upper=None,
                     reg=dict(type="l1", lam=0.1), args=dict(maxfun=14, rhoend=1e-4))
+    if name == "grow3":
+        # growing initial set (one initial direction, one new direction per iteration, m < n): the growing.* keys are live here
+        return dict(prob=dict(kind="sinlin", n=3, m=2, pseed=17), x0=[0.4, -0.3, 0.8], lower=None, upper=None,
+                    user_params={"growing.ndirs_initial": 1, "growing.num_new_dirns_each_iter": 1},
+                    args=dict(maxfun=40, rhoend=1e-5))
     if name == "scaled4":
         return dict(prob=dict(kind="exp", n=4, m=6, pseed=13), x0=[0.1, 5.0, -0.2, 30.0], lower=[-1.0, 0.0, -2.0, 10.0],
                     upper=[1.0, 10.0, 2.0, 100.0], args=dict(maxfun=80, rhoend=1e-5, scaling_within_bounds=True))
